@@ -31,19 +31,19 @@ type Val struct {
 func scalar(sort, term string, t types.Type) *Val { return &Val{T: t, Sort: sort, S: []string{term}} }
 
 type Obligation struct {
-	Name      string
-	Kind      string
-	Unit      string
-	PrefixLen int
-	Goal      string
-	Extra     []string // extra declarations local to this obligation
-	Pos       string
-	Desc      string
-	Props     []string
-	MustSat   bool // cover obligations: expected sat
-	Using     []string
+	Name       string
+	Kind       string
+	Unit       string
+	PrefixLen  int
+	Goal       string
+	Extra      []string // extra declarations local to this obligation
+	Pos        string
+	Desc       string
+	Props      []string
+	MustSat    bool // cover obligations: expected sat
+	Using      []string
 	UsingFacts []string
-	SinceLine int // sliced context additionally keeps every prefix line from this index on (-1: none)
+	SinceLine  int // sliced context additionally keeps every prefix line from this index on (-1: none)
 	// results
 	Status  string // proved, failed, unknown, error
 	Solver  string
